@@ -838,6 +838,8 @@ class Interp:
 
     # ------------------------------------------------------------------ comprehensions (concrete iteration only)
     def iter_concrete(self, v):
+        if isinstance(v, Model) and hasattr(v, "vf_iter"):
+            return list(v.vf_iter(self))          # contract-defined iterable of concrete length (additive, C59)
         if isinstance(v, Rec) and v.cls.is_namedtuple:
             return [v.f[k] for k in v.cls.fields]
         if isinstance(v, tuple):
